@@ -409,13 +409,14 @@ SPECS["C14"] = {
                    "202, and a Content-Encoding header naming the compression. TWO SERIES: two series of one name (different tag sets and sources) for each of the four types with "
                    "symbolic values and set members: each series keeps its own. EVENT: all fields symbolic. BAD BODY: unknown encodings and undecodable bodies under every known "
                    "encoding are answered 4xx/5xx and dispatch nothing.",
-    "bounds": {"quick": "one name, one tag, one source, strings of 1..2 ASCII bytes, <= 2 timer values / set members", "thorough": "same"},
+    "bounds": {"quick": "one name, one tag, one source, strings of 1..2 ASCII bytes, <= 2 timer values / set members; two series per name", "thorough": "adds names, tags and sources of 3 symbolic ASCII bytes"},
     "outside": ["the byte-level protobuf wire format and the zlib/lz4 codecs (trusted inverse pairs; compression levels)", "corrupt COMPRESSED bodies (decoder behaviour)", "strings that are not valid UTF-8 (C15)"],
     "assumptions": STUBS_COMMON + [NET_STUBS, TIME_MODEL],
     "jobs": [
         {"pkg": "./pkg/statsd", "harness": "pkg/statsd", "mode": "machine",
-         "entries": {"quick": ["VerifC14_Metrics", "VerifC14_TwoSeries", "VerifC14_Event", "VerifC14_BadBody", "VerifC14_Twin"]},
-         "reach": {"VerifC14_Metrics": ["decoded"], "VerifC14_TwoSeries": ["decoded"], "VerifC14_Event": ["event-decoded"], "VerifC14_BadBody": ["rejected"]},
+         "entries": {"quick": ["VerifC14_Metrics", "VerifC14_TwoSeries", "VerifC14_Event", "VerifC14_BadBody", "VerifC14_Twin"],
+                     "thorough": ["VerifC14_Metrics", "VerifC14_Metrics3", "VerifC14_TwoSeries", "VerifC14_Event", "VerifC14_BadBody", "VerifC14_Twin"]},
+         "reach": {"VerifC14_Metrics": ["decoded"], "VerifC14_Metrics3": ["decoded"], "VerifC14_TwoSeries": ["decoded"], "VerifC14_Event": ["event-decoded"], "VerifC14_BadBody": ["rejected"]},
          "twin": {"VerifC14_Twin": True},
          "limits": {"quick": {"timeout": "600s"}, "thorough": {"timeout": "600s"}}},
     ],
